@@ -16,7 +16,7 @@ from ..world import World
 A1 = ['i:2', 'D:0.5', 'F:-2/7']
 A2 = ['i:3', 'D:0.25', 'F:1/3']
 NUMS = ['i:3', 'i:-1', 'D:0.25', 'F:-2/7', 'f:0.1', 'f:2.5', 'S:1.5',
-        'i:1000000000000', 'f:1e-30']
+        'i:1000000000000', 'f:1e-30', 'R:1/3', 'R:-7/4']
 KINDS = ['qq', 'qu', 'uq', 'uu']
 
 
@@ -53,9 +53,9 @@ def expect_binop(w, op, s1, s2):
             if list(w.types[t1].registered_converters()):
                 return ('skip', 'type converted through converters')
             if ud1 == ud2:
-                # e.g. EUR/kg : EUR/g, same base units: the exact number, or
-                # a refusal (the type has no implicit factors)
-                return ('num-or-raise',)
+                # e.g. EUR/kg : EUR/g, same base units: the dimensions
+                # cancel, so the exact number -- for every kind of operand
+                return ('num-same-base',)
             # different base units (EUR/kg : USD/kg, n1 : n2): there is no
             # common scale, a plain number would be wrong
             return ('mustraise',)
@@ -186,12 +186,11 @@ def run_binop(w, op, kind, s1, a1, s2, a2, st=None):
                      type(res).__name__)] += 1
     sign = 1 if op == '*' else -1
     tuple_form = kind == 'uu'
-    if exp[0] == 'num-or-raise':
+    if exp[0] == 'num-same-base':
         if err is not None:
-            if isinstance(err, Q.QuantityError):
-                return []
-            return [(sig + ':noref-exc', f"{what} raised "
-                     f"{type(err).__name__}")]
+            return [(sig + ':noref-same-base:raises', f"{what} raised "
+                     f"{type(err).__name__}: {err}; the units are derived "
+                     "from the same base units, the dimensions cancel")]
         value = (vx * w.um[s1].ufac) / (vy * w.um[s2].ufac)
         return judge_num(res, value, what, sig + ':noref-same-base',
                          kind == 'uu')
@@ -511,8 +510,24 @@ NEGATIVE = [
 ]
 
 
+_SUB = [['type', 'B1', 'x0', None],
+        ['unit', 'B1', 'x1', ['scaled', 'i:1000', 'x0']],
+        # a sub-class of B1 with a reference unit of its own: a quantity type
+        # (and dimension) of its own
+        ['type', 'B1s', 'xs0', None, 'B1'],
+        ['unit', 'B1s', 'xs1', ['scaled', 'i:100', 'xs0']],
+        ['dtype', 'S', [['B1', 2]], None, None]]
+SUBCLASS = [
+    _SUB,
+    _SUB + [['dtype', 'Ps', [['B1', 1], ['B1s', 1]], None, None],
+            ['dtype', 'Vs', [['B1', 1], ['B1s', -1]], None, None]],
+    _SUB + [['dtype', 'Vr', [['B1s', 1], ['B1', -1]], 'vr0', None],
+            ['dtype', 'Ss', [['B1s', 2]], None, None]],
+]
+
+
 def user_scripts(tier):
-    scripts = [list(s) for s in LONGNAMES + NEGATIVE]
+    scripts = [list(s) for s in LONGNAMES + NEGATIVE + SUBCLASS]
     for mask in range(2 ** len(OPTIONAL)):
         s = list(BASE)
         for i, evs in enumerate(OPTIONAL):
@@ -648,7 +663,7 @@ def run(tier, seed):
         a2s = A2[rot:] + A2[:rot]
         a1s, a2s = a1s[:2], a2s[:2]
         amts = A1[:2] + ['i:0', 'F:1/3']
-        nums = NUMS[:7]
+        nums = NUMS[:7] + NUMS[-2:]
     total.merge(pmap(part_pairs, [[s] for s in syms], (a1s, a2s)))
     total.merge(pmap(part_pow_num, [syms[i::16] for i in range(16)],
                      (amts, nums)))
